@@ -1122,8 +1122,16 @@ class Interp:
             role = a0.keyrole if isinstance(a0, MapV) else "SENSOR"
             return SeqV(Layout((("SORT", role, keyname),)), "sym")
         if isinstance(a0, SeqV):
-            if a0.layout.ordered():
+            segs = a0.layout.segs
+            if len(segs) == 0:
                 return a0
+            if len(segs) == 1 and segs[0][0] == "SORT":
+                # re-sorting a sequence already sorted by the same key is the identity; by another key it is that key's order
+                return a0 if segs[0][2] == keyname else SeqV(Layout((("SORT", segs[0][1], keyname),)), a0.elem)
+            if len(segs) > 1 and all(g[0] in ("SORT", "UNORD", "REV", "DT") for g in segs):
+                # sorting a concatenation interleaves its segments: a layout of its own (not the concatenation)
+                roles = tuple(sorted((repr(g[1]) if g[0] != "DT" else "DT") for g in segs))
+                return SeqV(Layout((("SORT", ("UNION",) + roles, keyname),)), a0.elem)
             segs = a0.layout.segs
             if len(segs) == 1 and segs[0][0] == "UNORD":
                 return SeqV(Layout((("SORT", segs[0][1], keyname),)), a0.elem)
